@@ -108,6 +108,29 @@ func judgeC13(c *Ctx, sc *Scenario) *Violation {
 	rel, _ := filepath.Rel(site.Root, site.GitDir)
 	m4.Inv.Env = map[string]string{"GIT_DIR": rel}
 	modes = append(modes, mode{name: "GIT_DIR relative from an unrelated directory", sc: m4, site: site})
+	// inherited environment that would graft or replace: GIT_GRAFT_FILE pointing at a graft file
+	var cids []string
+	for _, o := range w.Objects {
+		if o.Kind == KCommit && o.Stored {
+			cids = append(cids, o.ID)
+		}
+	}
+	if len(cids) >= 2 {
+		gf := filepath.Join(site.Root, "inherited-grafts")
+		var gb strings.Builder
+		for i, id := range cids {
+			// drop the parents of every other commit, redirect the others to the first commit
+			if i%2 == 0 {
+				gb.WriteString(id + "\n")
+			} else if id != cids[0] {
+				gb.WriteString(id + " " + cids[0] + "\n")
+			}
+		}
+		os.WriteFile(gf, []byte(gb.String()), 0o644)
+		me := base
+		me.Inv.Env = map[string]string{"GIT_GRAFT_FILE": gf}
+		modes = append(modes, mode{name: "inherited GIT_GRAFT_FILE in the environment", sc: me, site: site})
+	}
 	// bare twin
 	bw := w.Clone()
 	bw.Bare = !w.Bare
@@ -414,21 +437,37 @@ func judgeC17(c *Ctx, sc *Scenario) *Violation {
 		}
 		return nil
 	}
-	// engine B, race build, several processor counts, proxy jitter
-	for i, gmp := range []int{1, 2, 16, 4} {
-		b := *sc
+	// engine B: the -race build at GOMAXPROCS 1 and 16 (race reports, read-only),
+	// then the plain build 12 more times at GOMAXPROCS 2..16 with proxy jitter on
+	// every other run (schedule-dependent output shows up as a difference)
+	jitter := func(b *Scenario, i int) {
 		b.Plan = Plan{Peers: map[string]*PeerPlan{}}
 		if i%2 == 1 {
-			// re-chunk and delay the streams through the proxy
 			for _, k := range peerKinds {
 				b.Plan.Peers[k] = &PeerPlan{Chunks: []int{1 + 7*i}, Delays: []int{i}}
 			}
 		}
+	}
+	for i, gmp := range []int{1, 16} {
+		b := *sc
+		jitter(&b, i)
 		res := RunB(&b, site, BOpts{Race: true, GOMAXPROCS: gmp})
 		c.Stats.CLIRuns++
 		c.Stats.Probe(fmt.Sprintf("engine-B-race-run-GOMAXPROCS-%d", gmp))
 		if v := cmp(fmt.Sprintf("real binary (-race), GOMAXPROCS=%d, proxy jitter=%v", gmp, i%2 == 1), res); v != nil {
 			return v
+		}
+	}
+	if os.Getenv("VERIF_GITSIZER_BIN") != "" {
+		for i, gmp := range []int{2, 3, 4, 5, 8, 16, 2, 3, 4, 5, 2, 4} {
+			b := *sc
+			jitter(&b, i)
+			res := RunB(&b, site, BOpts{GOMAXPROCS: gmp})
+			c.Stats.CLIRuns++
+			c.Stats.Probe("engine-B-plain-repetitions")
+			if v := cmp(fmt.Sprintf("real binary, repetition %d, GOMAXPROCS=%d, proxy jitter=%v", i, gmp, i%2 == 1), res); v != nil {
+				return v
+			}
 		}
 	}
 	after, _ := digestTree(target)
@@ -479,6 +518,33 @@ func checkC17(c *Ctx, rt *rapid.T) {
 	if g.Chance(1, 3, "packed") {
 		w.Layout = g.PickStr([]string{"packed", "packed-refs"}, "layout")
 	}
+	if g.Chance(2, 3, "ties") {
+		// ties: several equally large maximal blobs side by side, equally wide
+		// trees, equally deep tag chains - whichever is named must not depend on
+		// the schedule
+		n := g.Int(2, 8, "nties")
+		var es []TreeEntry
+		for i := 0; i < n; i++ {
+			body := append([]byte(fmt.Sprintf("tie %02d ", i)), make([]byte, 4000)...)
+			b := w.Add(NewObject(KBlob, body))
+			es = append(es, TreeEntry{Mode: 0o100644, Name: fmt.Sprintf("tie%02d.bin", i), OID: b.ID})
+		}
+		SortTreeEntries(es)
+		t := w.Add(NewObject(KTree, EncodeTree(es)))
+		cs := CommitSpec{Tree: t.ID, Author: ident("A", 1600000000, "+0000"), Committer: ident("C", 1600000000, "+0000"), Message: "ties\n"}
+		co := w.Add(NewObject(KCommit, EncodeCommit(cs)))
+		if !refConflicts(refSet(w), "refs/heads/ties") {
+			w.Refs = append(w.Refs, Ref{Name: "refs/heads/ties", OID: co.ID})
+		}
+		for i := 0; i < g.Int(0, 3, "tietags"); i++ {
+			ts := TagSpec{Object: co.ID, Type: KCommit, Tag: fmt.Sprintf("tie%d", i), Tagger: ident("T", 1600000000, "+0000"), Message: "tie\n"}
+			tg := w.Add(NewObject(KTag, EncodeTag(ts)))
+			name := fmt.Sprintf("refs/tags/tie%d", i)
+			if !refConflicts(refSet(w), name) {
+				w.Refs = append(w.Refs, Ref{Name: name, OID: tg.ID})
+			}
+		}
+	}
 	gm := NewGroupModel()
 	if g.Chance(1, 2, "groups") {
 		// several configured groups: anything that iterates a map while
@@ -519,7 +585,7 @@ func init() {
 	Register(&Prop{ID: "C13", Check: checkC13, Replay: judgeC13, Components: compB,
 		Rule: "engine B only (real git semantics are the point): generated repositories with reflogs, replace references for commits / trees / blobs and graft lines that add, drop or redirect parents; the real binary is started at the top of the work tree, in a subdirectory, inside .git, with GIT_DIR absolute and relative from an unrelated directory, on a bare / non-bare twin, in a linked worktree and as `git -C <dir> sizer`; stdout must be byte-identical across modes and the numbers equal the model evaluated on the stored graph (refs/replace/* being ordinary references); a real `git clone --depth 1` of the repository must be refused with an error and no report. non-trivial: the world carries replace refs or grafts; distinct by scenario hash"})
 	Register(&Prop{ID: "C17", Check: checkC17, Replay: judgeC17, Components: compB,
-		Rule: "generated repositories (loose / packed-refs / repacked, reflogs, an index and untracked files in the work tree) x command lines of every format; the real -race binary runs 4 times at GOMAXPROCS 1/2/16/4 with proxy re-chunking and delays on every other run, then the -race in-process engine runs 3 plan variants (same delivery order, different chunking / delays / pipe capacities / flush policies): stdout byte-identical across all runs, any race-detector report is a violation, and a digest of every path of the repository (type, mode, size, SHA-256) and of $HOME is unchanged afterwards. Goroutine choice inside git-sizer is sampled, not decided. distinct by scenario hash"})
+		Rule: "generated repositories (loose / packed-refs / repacked, reflogs, an index and untracked files in the work tree) x command lines of every format; the real -race binary runs at GOMAXPROCS 1 and 16, the plain binary 12 more times at GOMAXPROCS 2/3/4/5/8/16 with proxy re-chunking and delays on every other run (two thirds of the worlds carry deliberate ties: equally large maximal blobs side by side, equal tag depths), then the -race in-process engine runs 3 plan variants (same delivery order, different chunking / delays / pipe capacities / flush policies): stdout byte-identical across all runs, any race-detector report is a violation, and a digest of every path of the repository (type, mode, size, SHA-256) and of $HOME is unchanged afterwards. Goroutine choice inside git-sizer is sampled, not decided. distinct by scenario hash"})
 }
 
 // groupsUsable: every regexp compiles and no leaf group is rule-less
